@@ -12,6 +12,7 @@ import (
 	"bytes"
 	"encoding/binary"
 	"encoding/json"
+	"errors"
 	"fmt"
 	"io"
 	"os"
@@ -55,7 +56,7 @@ var props = map[string]propCfg{
 	"C10": {Level: "fault_enumeration", Variants: []variant{{Name: "plain"}}, CPUHang: 20},
 	"C11": {Level: "exploration", Variants: []variant{{Name: "plain"}, {Name: "overlay", Overlay: atpFiles}, {Name: "race", Race: true}}},
 	"C12": {Level: "exploration", Variants: []variant{{Name: "plain"}}, CPUHang: 20},
-	"C13": {Level: "exploration", Variants: []variant{{Name: "race", Race: true}}},
+	"C13": {Level: "exploration", Variants: []variant{{Name: "plain"}, {Name: "race", Race: true}}},
 	"C14": {Level: "exploration", Variants: []variant{{Name: "plain"}}, CPUHang: 20},
 	"C15": {Level: "exploration", Variants: []variant{{Name: "plain"}}, CPUHang: 20},
 	"C16": {Level: "exploration", Variants: []variant{{Name: "plain"}}, CPUHang: 20},
@@ -393,6 +394,14 @@ func run(id string, cfg propCfg, tier string, seed uint64, repo string, jobs int
 	return exit
 }
 
+func exitCode(err error) int {
+	var ee *exec.ExitError
+	if errors.As(err, &ee) {
+		return ee.ExitCode()
+	}
+	return -1
+}
+
 func oneLine(s string, n int) string {
 	s = strings.ReplaceAll(s, "\n", " | ")
 	if len(s) > n {
@@ -470,7 +479,8 @@ func superviseShard(id string, cfg propCfg, v variant, bin, tier string, seed ui
 		verdict, werr := watchAndWait(cmd, prefix+".journal", cfg.CPUHang)
 		ef.Close()
 		ended := absorb(prefix+".jsonl", v.Name, &res)
-		if ended && werr == nil {
+		if ended && (werr == nil || (v.Race && exitCode(werr) == 66)) {
+			// 66 is the race detector's exit status for "reports were written" (halt_on_error=0)
 			absorbRace(prefix, v.Name, &res)
 			return res
 		}
